@@ -2,6 +2,7 @@ import PyXABModel.Drv.Util
 import PyXABModel.Drv.TreeBandit
 import PyXABModel.Drv.Sweep
 import PyXABModel.Drv.Meta
+import PyXABModel.Drv.Zooming
 namespace PyXAB.Drv
 
 inductive DState where
@@ -15,6 +16,7 @@ inductive DState where
   | sq (d : SqD)
   | poo (d : PooD)
   | gpo (d : GpoDD)
+  | zoom (d : ZoomD)
 
 def runRd {β} (r : Rd β) (toks : List String) : Except String β :=
   match r.run toks with
@@ -82,6 +84,12 @@ def algoStep (st : DState) (cmd : String) (args : List String) : DState × Strin
     match gpoInit args with
     | .ok (d, note) => (.gpo d, note)
     | .error e => (.none, s!"bad-op {e}")
+  | "Zooming.init", _ =>
+    match zoomInit args with
+    | .ok (.ok d) => (.zoom d, "ok")
+    | .ok (.error e) => (.none, s!"ERR {errName e}")
+    | .error e => (.none, s!"bad-op {e}")
+  | _, .zoom d => let (d', o) := zoomStep d cmd args; (.zoom d', o)
   | _, .poo d => let (d', o) := pooStep d cmd args; (.poo d', o)
   | _, .gpo d => let (d', o) := gpoStep d cmd args; (.gpo d', o)
   | _, .soo d => let (d', o) := sooStep d cmd args; (.soo d', o)
